@@ -207,6 +207,37 @@ def run(prog: Program, ctx: Ctx) -> None:  # noqa: PLR0912,PLR0915
             ok = last.get(("a",), "").endswith(("a.py", "a.pyi")) and last.get(("b",), "").endswith("b.so")
             ctx.ob("R3", f"submodules|{label}", ok, f"winner per module when several files provide it: {last} (extension module > source > bytecode)", where(sm))
 
+    # a search path entry that is a file (a zip archive, an .egg named by a .pth file) or does not exist is skipped, as the import system does
+    for label, sps, files_z in (("a zip archive before the package's directory", ["/s/archive.zip", "/t"], {"/s/archive.zip": "PK", "/t/pkg/__init__.py": ""}),
+                                ("a missing directory before the package's directory", ["/nowhere", "/t"], {"/t/pkg/__init__.py": ""})):
+        got_z = {o: find_package(sps, _vfs(files_z), o) for o in ORDERS}
+        ctx.ob("R2", f"precedence|{label}", set(got_z.values()) == {"Package(pkg, /t/pkg/__init__.py, stubs=None)"},
+               f"search paths {sps}: find_package('pkg') = {got_z}; expected the package of /t", where(fp))
+    it.vfs = {**_vfs({"/site/easy-install.pth": "/site/thing.egg\n/x1", "/site/thing.egg": "PK", "/x1/pkg/__init__.py": ""}), "order": ORDERS["sorted"]}
+    try:
+        it.steps = 0
+        fo = it._construct(fcls, [["/site"]], {})
+        it.stubs[f"{F}._is_pkg_style_namespace"] = lambda _i, init: False
+        got_e = describe(it.call(fp, fo, "pkg"))
+    except Raised as r:
+        got_e = f"raises {r.exc}"
+    ctx.ob("R2", "precedence|an .egg file named by a .pth file", got_e == "Package(pkg, /x1/pkg/__init__.py, stubs=None)",
+           f"/site/easy-install.pth lists an .egg file and a directory: ModuleFinder(['/site']).find_package('pkg') = {got_e}; expected the package of /x1", where(fp))
+    # a sub-package directory next to a module file of the same name: the import system takes the package; the file listed last wins in griffe
+    files_sp = {"/s/pkg/__init__.py": "", "/s/pkg/sub.py": "", "/s/pkg/sub/__init__.py": "", "/s/pkg/sub/x.py": ""}
+    last_by_order = {}
+    for o in ORDERS:
+        fo = finder(["/s"], _vfs(files_sp), o)
+        fo.attrs["_always_scan_for"] = {"pkg": []}
+        it.steps = 0
+        try:
+            res = it.call(sm, fo, Obj(None, {"filepath": PP("/s/pkg/__init__.py"), "name": "pkg"}, label="module"))
+            last_by_order[o] = {tuple(parts): str(path) for parts, path in res}
+        except Raised as r:
+            last_by_order[o] = f"raises {r.exc}"
+    ok_sp = all(isinstance(v, dict) and v.get(("sub",)) == "/s/pkg/sub/__init__.py" and v.get(("sub", "x")) == "/s/pkg/sub/x.py" for v in last_by_order.values())
+    ctx.ob("R3", "submodules|sub-package next to a module file of the same name", ok_sp,
+           f"pkg/sub.py next to pkg/sub/__init__.py: the file loaded last for `sub` is {last_by_order}; CPython imports pkg/sub/__init__.py", where(sm))
     # .pth scan order, through the constructor (the public way in): ModuleFinder(search_paths) on a virtual file system
     init = prog.lookup_method(fcls, "__init__")[0]
     pth_layouts = {
